@@ -987,3 +987,58 @@ def keygen_patches():
     for crv, cls in (("Ed25519", FakeEd25519Private), ("Ed448", FakeEd448Private), ("X25519", FakeX25519Private), ("X448", FakeX448Private)):
         out.append((OK.PRIVATE_KEYS_MAP, crv, mk(cls, crv)))
     return out
+
+
+PRIVATE_NAMES = ("d", "p", "q", "dp", "dq", "qi", "oth", "k")
+
+
+def leak_scan(env, output, oct_keys=(), kids=()):
+    """C12: `output` (a compact token or a JSON-serialization dict / exported JWK) is decoded transitively through the opaque
+    codec tables; nothing reachable from it may be private material: no private JWK member name in any JSON object, no octets
+    of a private accessor (fake keys return b'PRIV-<kid>' / distinctive integers), no raw symmetric key."""
+    secrets_int = {secret_int(k, m) for k in kids for m in ("d", "p", "q", "dp", "dq", "qi")}
+    b64 = {tok: v for v, tok in env.b64_made}
+    js = {tok: v for v, tok in env.js_made}
+    leaks = []
+    seen = set()
+
+    def walk(v, where, depth=0):
+        if depth > 8:
+            return
+        if v.__class__ not in (dict, list, tuple, str, bytes, int):
+            return            # CrossHair symbolic values (harness inputs such as the payload) and opaque primitive outputs
+        if isinstance(v, dict):
+            for k, x in v.items():
+                if k in PRIVATE_NAMES:
+                    leaks.append("%s: member %r" % (where, k))
+                walk(x, where, depth + 1)
+        elif isinstance(v, (list, tuple)):
+            for x in v:
+                walk(x, where, depth + 1)
+        elif isinstance(v, str):
+            for part in v.split("."):
+                pb = part.encode()
+                if pb in b64 and pb not in seen:
+                    seen.add(pb)
+                    walk(b64[pb], where + ">" + part, depth + 1)
+            if v in js:
+                walk(js[v], where + ">json", depth + 1)
+        elif isinstance(v, bytes):
+            try:
+                t = v.decode()
+            except UnicodeDecodeError:
+                t = None
+            if t is not None and t in js:
+                walk(js[t], where + ">json", depth + 1)
+            if len(v) >= 5 and b"PRIV-" in v:
+                leaks.append("%s: private octets" % where)
+            for ok in oct_keys:
+                if len(v) == len(ok) and v == ok:
+                    leaks.append("%s: raw symmetric key" % where)
+            if len(v) >= 30 and int.from_bytes(v, "big") in secrets_int:
+                leaks.append("%s: private integer" % where)
+        elif isinstance(v, int) and not isinstance(v, bool):
+            if v in secrets_int:
+                leaks.append("%s: private integer" % where)
+    walk(output, "output")
+    return leaks
